@@ -136,6 +136,7 @@ class RelayMode(vlib.Mode):
     chunk = 60
     shrink_budget = 40
     focus = None
+    settle_prob = 0.15
 
     def __init__(self, focus, profile="mixed"):
         super().__init__()
@@ -268,6 +269,8 @@ class RelayMode(vlib.Mode):
                 nj = st.get("joined", 0)
                 if nj:
                     case.append(f"close n{rng.randrange(nj)}"); case.append("sync")
+        if any(l.startswith("send ") for l in case) and any(hx("stats") in l for l in case if l.startswith("session ")) and rng.random() < self.settle_prob:
+            case.append("settle 1300")     # the relay's stats reporter drains its queue once a second: whatever was sent on `stats` reaches it
         case.append("sync")
         case.append("members")
         return case
